@@ -49,6 +49,7 @@ def gen_rows(rnd):
             else:
                 r[v] = rnd.choice([-5, -1, 0, 1, 2, 2.5, 7, 10, 100])
         r["w"] = rnd.choice([1, 2, 3, 4])     # never NULL
+        r["o"] = {"k": rnd.choice(["p", "q", 1])}   # grouping on a nested path
         rows.append(r)
     return rows
 
@@ -93,6 +94,7 @@ def gen_case(rnd):
         q = select(sel, table("t"), wh=gen_where(rnd))
         return mk_case({"t": rows}, q, mode="seq", tag="whole-table")
     gcols = rnd.sample(["g0", "g1", "g2"], rnd.randint(1, 3))
+    nested_key = rnd.random() < 0.15
     sel = []
     shape = rnd.random()
     if shape < 0.15:
@@ -108,7 +110,12 @@ def gen_case(rnd):
             sel.append(["star"])
     if not sel:
         sel.append(item(["aggr", "count", []], "a0"))
-    q = select(sel, table("t"), wh=gen_where(rnd), gb=[[g, [g]] for g in gcols], hv=gen_having(rnd))
+    gb = [[g, [g]] for g in gcols]
+    if nested_key:
+        gb.append(["o.k", ["o", "k"]])
+        if rnd.random() < 0.5:
+            sel.append(item(["col", ["o", "k"], {"style": 1}], "ok"))
+    q = select(sel, table("t"), wh=gen_where(rnd), gb=gb, hv=gen_having(rnd))
     return mk_case({"t": rows}, q, mode="seq", tag="group-by")
 
 
